@@ -356,3 +356,34 @@ def b10(ctx):
         yield Ob(key_of("C14-B10", b.path, "zst-does-not-use-the-buffer-position"), ok,
                  "%d typed write(s) through the buffer position, %s" % (len(ws), "each under size_of T >= 1" if ok else "reachable with a zero-sized T at a position of any alignment"),
                  ctx.loc(ws[0]) if ws else b.loc())
+
+
+@rule("C14-B11", "C14", 10, "the views of both byte handles designate the buffer itself: buffer() / buffer_mut() are the arena bytes [ptr_offset, ptr_offset + capacity()), "
+      "deref / deref_mut the first len of them, as_ptr / as_mut_ptr the arena pointer at ptr_offset - every put_* writes through buffer_mut() / as_mut_ptr() and every "
+      "get_* reads through buffer(), so a view that starts at the owned extent (memory_offset: the node header of a recycled segment, the alignment padding) moves "
+      "every access in front of the buffer", also=("C01", "C08"))
+def b11(ctx):
+    want_off = field(self_p(), "allocated", "ptr_offset")
+    n = 0
+    for b in ctx.facts.own:
+        m = re.match(r"^bytes::(BytesMut|BytesRefMut)::<.*?>::(buffer|buffer_mut|as_ptr|as_mut_ptr)$|^<bytes::(BytesMut|BytesRefMut)<.*?> as std::ops::(?:Deref|DerefMut)>::(deref|deref_mut)$", b.path)
+        if not m:
+            continue
+        name = m.group(2) or m.group(4)
+        ev, res = ctx.eval(b, no_inline=(r"::get_bytes(_mut)?$", r"::get_pointer(_mut)?$"))
+        calls = [e for e in res.log if e["kind"] == "call" and re.search(r"::get_(bytes|pointer)(_mut)?$", e["callee"])]
+        if not calls:
+            yield Ob(key_of("C14-B11", b.path, "view"), False, "%s does not reach get_bytes / get_pointer of the arena" % name, b.loc())
+            continue
+        for e in calls:
+            n += 1
+            off = cz(e["args"][1])
+            ok = off == want_off
+            what = "offset %s" % short(off, 60)
+            if re.search(r"get_bytes(_mut)?$", e["callee"]):
+                size = cz(e["args"][2])
+                want_size = cap_term() if name.startswith("buffer") else cz(len0())
+                is_len = name.startswith("deref") and size in (cz(len0()), field(self_p(), "len"))      # (&self: a plain field read; &mut self: a read of the place)
+                ok = ok and (size == want_size or is_len or term_eq(size, want_size))
+                what += ", length %s (want %s)" % (short(size, 60), short(want_size, 60))
+            yield Ob(key_of("C14-B11", b.path, "view"), ok, "%s: %s(%s) - want offset %s" % (name, e["callee"].split("::")[-1], what, show(want_off)), ctx.loc(e))
